@@ -33,10 +33,16 @@ def one(d, tier, shards):
             return d, prop, None, 'patch does not apply: ' + r.stderr.decode()[-200:], 0
         env = dict(os.environ, WCVERIF_REPO=mrepo, WCVERIF_OUT=os.path.join(work, 'out'), VERIF_SHARDS=str(shards))
         t0 = time.time()
-        r = subprocess.run(['./check', prop, '--tier', tier], cwd=VERIF, env=env, capture_output=True, timeout=7200)
-        out = (r.stdout + r.stderr).decode('utf-8', 'replace')
-        sigs = [ln.strip() for ln in out.splitlines() if ln.strip().startswith('signature:')]
-        return d, prop, r.returncode, sigs[:3], round(time.time() - t0, 1)
+        # a change may be visible to the check of a neighbouring property only (recorded by hand as "sweep_checks" in meta.json)
+        rc, sigs, used = None, [], prop
+        for c in meta.get('sweep_checks', [prop]):
+            r = subprocess.run(['./check', c, '--tier', tier], cwd=VERIF, env=env, capture_output=True, timeout=7200)
+            out = (r.stdout + r.stderr).decode('utf-8', 'replace')
+            sigs = [ln.strip() for ln in out.splitlines() if ln.strip().startswith('signature:')]
+            rc, used = r.returncode, c
+            if rc == 1:
+                break
+        return d, used, rc, sigs[:3], round(time.time() - t0, 1)
     finally:
         shutil.rmtree(work, ignore_errors=True)
 
